@@ -63,7 +63,8 @@ Params(f) ==
 (* times in the documented validity interval *)
 TimesOf(f, p) ==
   CASE f \in {"Noh2", "Noh2Cog"} -> Pick({<<3, 10>>, <<4, 5>>}, {<<1, 20>>})          \* t < 1
-    [] f \in {"Cog6", "Cog7", "Cog18"} -> {<<p.tau[1] * x[1], p.tau[2] * x[2]>> : x \in Pick({<<1, 4>>, <<-1, 2>>}, {<<4, 5>>})}  \* |t| < tau
+    [] f \in {"Cog6", "Cog18"} -> {<<p.tau[1] * x[1], p.tau[2] * x[2]>> : x \in Pick({<<1, 4>>, <<-1, 2>>}, {<<4, 5>>})}  \* |t| < tau
+    [] f = "Cog7" -> {<<p.tau[1] * x[1], p.tau[2] * x[2]>> : x \in Pick({<<1, 4>>, <<1, 2>>}, {<<4, 5>>})}              \* 0 < t < tau (t <= 0 returns NaN as documented)
     [] f = "Cog20" -> Pick({<<3, 10>>, <<17, 10>>}, {<<1, 1>>})
     [] f \in RiemannFams -> Pick({<<1, 4>>}, {<<2, 1>>})
     [] OTHER -> Times
@@ -81,6 +82,22 @@ Defined(f, p, t) ==
     [] f = "Cog6"  -> ~QEq(p.b, <<-2, 1>>)
     [] f = "Cog7"  -> QLt(p.Ri, p.R0)
     [] f = "Cog11" -> ~QEq(QMul(QSub(p.gamma, <<1, 1>>), <<k + 1, 1>>), <<2, 1>>)
+    [] f = "Cog13" -> \* the amplitude T0 is a real power of (c6 c8 c9): the base must be positive
+                      QSgn(QMul(QAdd(QSub(p.alpha, <<1, 1>>), QMul(QAdd(p.beta, <<3, 1>>), QSub(p.gamma, <<1, 1>>))),
+                                QSub(QAdd(p.beta, <<4, 1>>), p.alpha))) > 0
+    [] f = "Cog17" -> LET k1 == <<k + 1, 1>>
+                          oma == QSub(<<1, 1>>, p.alpha)
+                          x1 == QSub(QMul(<<2, 1>>, p.beta), <<4, 1>>)
+                          x2 == QAdd(QMul(<<2, 1>>, p.beta), <<5, 1>>)
+                          x3 == QAdd(x1, QMul(oma, k1))
+                          x4 == QSub(<<9, 1>>, QMul(oma, k1))
+                          x5 == QAdd(x1, QMul(<<2, 1>>, oma))
+                          x7 == QAdd(QDiv(QMul(p.alpha, x1), IF QSgn(oma) = 0 THEN <<1, 1>> ELSE oma), QAdd(QMul(<<2, 1>>, p.beta), <<k + 7, 1>>))
+                      IN  /\ QSgn(oma) # 0 /\ QSgn(x3) # 0 /\ QSgn(x5) # 0 /\ QSgn(x7) # 0
+                          /\ QSgn(QMul(QMul(x2, QNeg(oma)), QDiv(x4, x5))) > 0          \* T0 > 0
+                          /\ LET u0 == QDiv(x2, x3)
+                                  x6 == QAdd(<<-2, 1>>, QMul(u0, QAdd(<<2, 1>>, QMul(QSub(p.gamma, <<1, 1>>), k1))))
+                              IN  QSgn(QDiv(x6, x7)) > 0                               \* rho0 is a real power of a positive base
     [] f = "Cog14" -> LET b == QDiv(QSub(<<k - 1, 1>>, QMul(p.alpha, <<k, 1>>)),
                                     QSub(QAdd(<<2, 1>>, p.alpha), QMul(<<2, 1>>, QAdd(p.beta, <<4, 1>>))))
                       IN  QLt(<<0, 1>>, b) /\ QLt(b, <<k, 1>>)
